@@ -14,6 +14,14 @@ fn arg_val(args: &[String], name: &str) -> Option<String> { args.iter().position
 static ALLOC: mssim::alloc_track::Tracking = mssim::alloc_track::Tracking;
 
 fn main() {
+    // a panic that no guard caught is a harness error, not a verdict
+    if std::panic::catch_unwind(real_main).is_err() {
+        println!("HARNESS-ERROR: the harness itself panicked (set VERIF_DEBUG=1 for the message)");
+        std::process::exit(2);
+    }
+}
+
+fn real_main() {
     let args: Vec<String> = std::env::args().collect();
     if args.len() < 2 {
         usage();
@@ -24,12 +32,8 @@ fn main() {
     // library panics are caught and reported by the monitors; the default hook would print every one.
     // A panic outside a guard is a harness error: say so on the way out (exit code 101 otherwise).
     std::panic::set_hook(Box::new(|info| {
-        if std::env::var("VERIF_DEBUG").is_ok() || std::thread::current().name() == Some("main") {
-            eprintln!("HARNESS-ERROR: panic in {:?}: {}", std::thread::current().name(), info);
-        }
-        if std::thread::current().name() == Some("main") {
-            println!("HARNESS-ERROR: the harness itself panicked");
-            std::process::exit(2);
+        if std::env::var("VERIF_DEBUG").is_ok() {
+            eprintln!("debug: panic in {:?}: {}", std::thread::current().name(), info);
         }
     }));
     match args[1].as_str() {
@@ -510,9 +514,22 @@ fn check_c11(tier: &str, seed: u64, workers: usize, args: &[String]) -> i32 {
     let mut mon = props::mon_for("C11");
     mon.corruption = true;
     let cfg = ExploreCfg { seed, prop: "C11".into(), runs: a_runs, workers, bias: props::bias_for("C11", "corruption"), mon: mon.clone(), first_run: 0, keep_going: false };
-    let (agg, found, kh) = explore(&cfg, &known);
+    let (mut agg, mut found, kh) = explore(&cfg, &known);
     for (k, v) in kh {
         *known_hits.entry(k).or_insert(0) += v;
+    }
+    // the same invariant in the normal configuration (honest messages, full monitors' worlds: what-if
+    // spenders, PSBT-backed satisfier, heavy shapes): a panic needs no corrupted byte to be a violation
+    {
+        let mut mon_n = props::mon_for("C11");
+        mon_n.corruption = false;
+        let cfg_n = ExploreCfg { seed, prop: "C11".into(), runs: a_runs, workers, bias: props::bias_for("C11", "normal"), mon: mon_n, first_run: 10_000_000, keep_going: false };
+        let (agg_n, found_n, kh_n) = explore(&cfg_n, &known);
+        for (k, v) in kh_n {
+            *known_hits.entry(k).or_insert(0) += v;
+        }
+        agg.runs += agg_n.runs;
+        found.extend(found_n);
     }
     for f in found {
         n_viol += 1;
